@@ -13,11 +13,12 @@ RULE = ("P1: for every integer data vector of length 1..L over -M..M (quick L=4,
         "case also at the scales 2^-70 and 2^60 (scale laws of the definitions), population covariance from one "
         "observation on, cov(x, x) = var(x) with the very same slice passed twice; bin centres for non-decreasing edges"
         " with one repeated edge (a zero-width bin; still n-1 centres), for opposite-sign huge edges, a bin almost "
-        "symmetric about zero and a huge first / last bin; zeros of both signs mixed (ties: first occurrence wins) as "
-        "they are and as the largest / smallest value; P3 (incl. six vectors of length 513..1400): random integer "
-        "vectors of length 2..200 validated by TLC (Trace_Stats), each also moved to 2^20 and +-1e8 (second moments in "
-        "all algorithms unchanged within the bound). Case class = (function, data shape n=1/constant/ties/generic, "
-        "offset class).")
+        "symmetric about zero and a huge first / last bin; every statistic on the same buffer immediately before and "
+        "after an interior value was edited in place equals the value on a fresh copy; zeros of both signs mixed (ties:"
+        " first occurrence wins) as they are and as the largest / smallest value; P3 (incl. six vectors of length "
+        "513..1400): random integer vectors of length 2..200 validated by TLC (Trace_Stats), each also moved to 2^20 "
+        "and +-1e8 (second moments in all algorithms unchanged within the bound). Case class = (function, data shape "
+        "n=1/constant/ties/generic, offset class).")
 ASSUMPTIONS = ["integer data plus exact offsets (exact rational oracle); lengths beyond a few hundred and gaussian data are not reached",
                "tolerance is that of a numerically stable algorithm, stated in the rule"]
 EXHAUSTIVE = True
